@@ -76,7 +76,7 @@ impl Prop for C12 {
                 }
             }
         }
-        if g.chance(1, 2500) {
+        if g.chance(1, 2500) && !g.fuzzing {
             // 2-3 pipelined commands of 1-3 packets each, delivered by reads of 17-40 MB (as much
             // as the receive buffer takes), then the client waits
             let n = g.usize_in(2, 3);
